@@ -23,13 +23,13 @@ type Case struct {
 
 // Mix weights the generator (C02 and C16 want different diets).
 type Mix struct {
-	Huge        int  // per mille of leaves around the 2 MiB ProcessBody spool threshold / 1 MiB record spool threshold
-	BigText     int  // per mille of leaves that are > 2 MiB text (spooled to disk by ProcessBody)
-	Faults      int  // per mille: truncated body, no response
-	BadGzip     int  // per mille: corrupt gzip entity
-	FailThenOK  int  // per mille
-	BadStatus   int  // per mille of leaves answering 429/500/503 for good
-	MaxAssets   int  // per page
+	Huge        int // per mille of leaves around the 2 MiB ProcessBody spool threshold / 1 MiB record spool threshold
+	BigText     int // per mille of leaves that are > 2 MiB text (spooled to disk by ProcessBody)
+	Faults      int // per mille: truncated body, no response
+	BadGzip     int // per mille: corrupt gzip entity
+	FailThenOK  int // per mille
+	BadStatus   int // per mille of leaves answering 429/500/503 for good
+	MaxAssets   int // per page
 	Hosts       int
 	SharedPool  int  // number of shared bodies (identical payloads under several URLs)
 	AllowEOF    bool // connection-close framing
@@ -47,8 +47,11 @@ type siteGen struct {
 }
 
 func (g *siteGen) pick(label string, n int) int { return rapid.IntRange(0, n-1).Draw(g.t, label) }
+
+// pm is true with a probability of roughly permille/1000. rapid's integer generators favour small values (measured:
+// IntRange(0,999) < 30 in 49 % of the draws, >= 970 in 4 %), so the rare event is put at the upper end of the range.
 func (g *siteGen) pm(label string, permille int) bool {
-	return permille > 0 && rapid.IntRange(0, 999).Draw(g.t, label) < permille
+	return permille > 0 && rapid.IntRange(0, 999).Draw(g.t, label) >= 1000-permille
 }
 
 func (g *siteGen) ref(ext string) string {
